@@ -310,11 +310,14 @@ func (fr *Frame) mergeStates(sts []*State) *State {
 	}
 	out.pc = fr.ctx.Def("pc", Or(pcs...))
 	out.epoch = sts[0].epoch
+	epochsDiffer := false
 	for _, s := range sts[1:] {
 		if s.epoch != out.epoch {
-			// different havoc histories: heaps untouched since then are forgotten
+			// different havoc histories: every heap known so far is merged explicitly below;
+			// heaps nobody has looked at yet start a new epoch
 			fr.top.nepoch++
 			out.epoch = fr.top.nepoch
+			epochsDiffer = true
 			break
 		}
 	}
@@ -363,6 +366,11 @@ func (fr *Frame) mergeStates(sts []*State) *State {
 	hk := map[string]bool{}
 	for _, s := range sts {
 		for k := range s.heaps {
+			hk[k] = true
+		}
+	}
+	if epochsDiffer {
+		for k := range fr.top.heapSorts {
 			hk[k] = true
 		}
 	}
@@ -586,9 +594,10 @@ func (fr *Frame) enterLoop(st *State, li *loopInfo, run *loopRun) *State {
 		pos = li.header.Instrs[0].Pos()
 	}
 	lname := fmt.Sprintf("loop%d", li.ordinal)
+	loopAlloc := st.alloc
 	// 1. invariant on entry
 	if spec != nil {
-		sc := fr.loopScope(st)
+		sc := fr.loopScope(st, loopAlloc)
 		for i, inv := range spec.Invariants {
 			g := fr.evalBool(sc, inv.E)
 			fr.oblige(st, "inv-entry", lname+"."+clauseName(inv, i), g, inv, pos)
@@ -611,20 +620,35 @@ func (fr *Frame) enterLoop(st *State, li *loopInfo, run *loopRun) *State {
 		fr.assumeWF(nst, nv)
 	}
 	run.preHeaps = map[string]Term{}
+	ws := fr.loopWriteSet(li)
 	if spec != nil && spec.HasMod {
-		sc := fr.loopScope(st)
+		sc := fr.loopScope(st, loopAlloc)
 		run.targets = fr.resolveTargets(sc, spec.Modifies)
-		for _, hn := range fr.heapsWrittenIn(li) {
-			run.preHeaps[hn] = fr.heap(st, hn, fr.top.heapSorts[hn])
+		if ws.all {
+			// the frame is checked against every heap known so far
+			for hn, srt := range fr.top.heapSorts {
+				run.preHeaps[hn] = fr.heap(st, hn, srt)
+			}
+		} else {
+			for hn, srt := range ws.heaps {
+				fr.top.heapSorts[hn] = srt
+				run.preHeaps[hn] = fr.heap(st, hn, srt)
+			}
 		}
 		fr.havocTargets(nst, run.targets)
-	} else if fr.loopHasCalls(li) {
+	} else if ws.all {
 		fr.havocAll(nst)
 	} else {
-		for _, hn := range fr.heapsWrittenIn(li) {
-			srt := fr.top.heapSorts[hn]
-			nst.heaps[hn] = fr.ctx.Fresh("Hl:"+hn, srt)
+		var names []string
+		for hn := range ws.heaps {
+			names = append(names, hn)
 		}
+		sort.Strings(names)
+		for _, hn := range names {
+			fr.top.heapSorts[hn] = ws.heaps[hn]
+			nst.heaps[hn] = fr.ctx.Fresh("Hl:"+hn, ws.heaps[hn])
+		}
+		fr.reassertConstStrings(nst)
 	}
 	if fr.loopAllocates(li) {
 		na := fr.ctx.Fresh("alloc", SInt)
@@ -642,7 +666,7 @@ func (fr *Frame) enterLoop(st *State, li *loopInfo, run *loopRun) *State {
 		}
 	}
 	if spec != nil {
-		sc := fr.loopScope(nst)
+		sc := fr.loopScope(nst, loopAlloc)
 		for _, inv := range spec.Invariants {
 			fr.assume(nst, fr.evalBool(sc, inv.E))
 		}
@@ -686,7 +710,7 @@ func (fr *Frame) backEdge(st *State, li *loopInfo, run *loopRun, from *ssa.Basic
 		}
 	}
 	if spec != nil {
-		sc := fr.loopScope(st)
+		sc := fr.loopScope(st, run.hdr.alloc)
 		for i, inv := range spec.Invariants {
 			g := fr.evalBool(sc, inv.E)
 			fr.oblige(st, "inv-preserved", lname+"."+clauseName(inv, i), g, inv, pos)
@@ -698,7 +722,7 @@ func (fr *Frame) backEdge(st *State, li *loopInfo, run *loopRun, from *ssa.Basic
 	// termination
 	var dec1 []Val
 	if spec != nil && len(spec.Decreases) > 0 {
-		sc := fr.loopScope(st)
+		sc := fr.loopScope(st, run.hdr.alloc)
 		for _, d := range spec.Decreases {
 			dec1 = append(dec1, fr.evalExpr(sc, d))
 		}
